@@ -86,8 +86,16 @@ def field_rebinding_rule(chk, rule="C06.R12"):
     for mi in repo.modules.values():
         if not mi.rel.startswith("optimum/quanto/"):
             continue
+        # methods that only the constructor of their class calls are part of the construction
+        ctor_helpers = set()
+        for cls in [x for x in ast.walk(mi.tree) if isinstance(x, ast.ClassDef)]:
+            meths = {m.name: m for m in cls.body if isinstance(m, ast.FunctionDef)}
+            for mname, m in meths.items():
+                callers = [c.name for c in meths.values() for x in ast.walk(c) if isinstance(x, ast.Call) and isinstance(x.func, ast.Attribute) and x.func.attr == mname and U(x.func.value) in ("self", "cls")]
+                if callers and all(c in ("__init__", "__new__") for c in callers) and not mname.startswith("__"):
+                    ctor_helpers.add(id(m))
         for fn in [x for x in ast.walk(mi.tree) if isinstance(x, ast.FunctionDef)]:
-            if fn.name in ("__init__", "__new__"):
+            if fn.name in ("__init__", "__new__") or id(fn) in ctor_helpers:
                 continue
             for st in ast.walk(fn):
                 pairs = []
